@@ -8,6 +8,8 @@ static LIVE: AtomicUsize = AtomicUsize::new(0);
 static PEAK: AtomicUsize = AtomicUsize::new(0);
 static MAXREQ: AtomicUsize = AtomicUsize::new(0);
 static TOTAL: AtomicUsize = AtomicUsize::new(0);
+/// frees with a zero-sized layout: the block was never allocated (zero-sized values own no block)
+static ZFREE: AtomicUsize = AtomicUsize::new(0);
 
 fn on_alloc(size: usize) {
 	let l = LIVE.fetch_add(size, Relaxed) + size;
@@ -54,6 +56,11 @@ unsafe impl GlobalAlloc for Counting {
 		p
 	}
 	unsafe fn dealloc(&self, p: *mut u8, l: Layout) {
+		if l.size() == 0 {
+			// undefined behaviour for the real allocator: record it instead of passing it on
+			ZFREE.fetch_add(1, Relaxed);
+			return;
+		}
 		LIVE.fetch_sub(l.size(), Relaxed);
 		if l.size() >= HUGE && l.align() <= 4096 {
 			munmap(p, l.size());
@@ -91,6 +98,7 @@ pub struct Usage {
 	pub peak: usize,
 	pub max_request: usize,
 	pub leaked: isize,
+	pub zero_sized_frees: usize,
 }
 impl Meter {
 	pub fn start() -> Meter {
@@ -98,6 +106,7 @@ impl Meter {
 		PEAK.store(base, Relaxed);
 		MAXREQ.store(0, Relaxed);
 		TOTAL.store(0, Relaxed);
+		ZFREE.store(0, Relaxed);
 		Meter { base }
 	}
 	pub fn stop(self) -> Usage {
@@ -105,6 +114,7 @@ impl Meter {
 			peak: PEAK.load(Relaxed).saturating_sub(self.base),
 			max_request: MAXREQ.load(Relaxed),
 			leaked: LIVE.load(Relaxed) as isize - self.base as isize,
+			zero_sized_frees: ZFREE.load(Relaxed),
 		}
 	}
 }
